@@ -280,14 +280,15 @@ func Run(prefix []int, body func()) *Sched {
 // Pool is a deterministic LIFO pool whose Get/Put are scheduling points. DropAll models the
 // permission of sync.Pool to drop items at any time (an environment deviation the harness may take).
 type Pool struct {
-	New   func() any
-	real  sync.Pool
-	items []any
-	ids   []int
-	all   []any // every object created in this run, by id-1
-	next  int
-	reg   bool
-	ep    int
+	New      func() any
+	real     sync.Pool
+	realInit sync.Once
+	items    []any
+	ids      []int
+	all      []any // every object created in this run, by id-1
+	next     int
+	reg      bool
+	ep       int
 }
 
 func (p *Pool) sync() {
@@ -309,7 +310,7 @@ func DropPooled() {
 
 func (p *Pool) Get() any {
 	if Free || S == nil {
-		p.real.New = p.New
+		p.realInit.Do(func() { p.real.New = p.New })
 		return p.real.Get()
 	}
 	Point("pool.Get")
@@ -430,11 +431,17 @@ type Group struct {
 	live   int
 	err    error
 	cancel func()
+
+	// pass-through mode (no scheduler running): real goroutines
+	wg   sync.WaitGroup
+	sem  chan struct{}
+	mu   sync.Mutex
+	real bool
 }
 
 func WithContext(ctx context.Context) (*Group, context.Context) {
 	ctx, cancel := context.WithCancel(ctx)
-	return &Group{cancel: cancel}, ctx
+	return &Group{cancel: cancel, real: Free || S == nil}, ctx
 }
 
 // LimitOverride lets the harness choose the concurrency limit.
@@ -445,9 +452,37 @@ func (g *Group) SetLimit(n int) {
 		n = v
 	}
 	g.limit = n
+	if g.real && n > 0 {
+		g.sem = make(chan struct{}, n)
+	}
 }
 
 func (g *Group) Go(f func() error) {
+	if g.real {
+		if g.sem != nil {
+			g.sem <- struct{}{}
+		}
+		g.wg.Add(1)
+		go func() {
+			defer g.wg.Done()
+			defer func() {
+				if g.sem != nil {
+					<-g.sem
+				}
+			}()
+			if err := f(); err != nil {
+				g.mu.Lock()
+				if g.err == nil {
+					g.err = err
+					if g.cancel != nil {
+						g.cancel()
+					}
+				}
+				g.mu.Unlock()
+			}
+		}()
+		return
+	}
 	if g.limit > 0 {
 		Block("group.Go", func() bool { return g.active < g.limit })
 	}
@@ -467,6 +502,13 @@ func (g *Group) Go(f func() error) {
 }
 
 func (g *Group) Wait() error {
+	if g.real {
+		g.wg.Wait()
+		if g.cancel != nil {
+			g.cancel()
+		}
+		return g.err
+	}
 	Block("group.Wait", func() bool { return g.live == 0 })
 	if g.cancel != nil {
 		g.cancel()
